@@ -611,6 +611,8 @@ def _finish(world, case, viol, info, nontrivial, peer=None):
     gc.collect()
     if world.outcome == "deadlock":
         viol.append({"clause": "hang", "subject": case["kind"], "detail": "simulation deadlocked"})
+    elif common.frozen_violation(world):
+        viol.append(common.frozen_violation(world, case["kind"]))
     elif world.outcome not in ("ok", "budget"):
         raise common.HarnessError(f"scenario failed: {world.outcome}: {world.error!r}")
     for e in world.loop.exc_log:
